@@ -488,6 +488,11 @@ func Document(r *core.Rand, o Opts) *Out {
 				line = r.Pick("\u200b", "\ufeff", "\u2060", "\u00ad") + r.Pick("    ", "\t", "  ") + r.Pick("2h", "30m", "8:00 - 9:00", "-15m") + " " + line
 				out.feat("invisible_then_entry_like")
 			}
+			if !(k == 0 && o.IDs) && r.Chance(1, 40) {
+				// a summary line made only of characters that are white space to many libraries but not blank characters of the format
+				line = r.Pick("\f", "\v", "\u0085", "\u2028", "\u2029", "\f\f", "\u2028\v")
+				out.feat("whitespace_like_summary_line")
+			}
 			if o.TrailingBlank && r.Chance(1, 6) {
 				line += r.Pick(" ", "  ", "\t", " \t")
 				out.feat("trailing_blanks")
